@@ -798,3 +798,43 @@ func ReadTyped(n datamodel.Node) (v model.Val) {
 
 // Repr returns the representation node of a typed node.
 func Repr(n datamodel.Node) datamodel.Node { return repr(n) }
+
+// CheckWrongKind is the typed-node part of C01: a typed node (and its representation) built from an
+// inhabitant is read with every probe on — every lookup form, both iterators, and every kind-inappropriate
+// accessor, which must answer with an error and never panic.
+func CheckWrongKind(rep Reporter, eng Engine, ts *rs.TypeSystem, t *rs.Type, tv model.Val) {
+	typed, _ := eng.Proto(t.Name)
+	if typed == nil {
+		return
+	}
+	in := ts.TypeInput(t, tv)
+	var o Outcome
+	if hasComplexKeys(ts, t, map[string]bool{}) {
+		o = FeedTyped(typed, ts, t, in)
+	} else {
+		o = Feed(typed, in)
+	}
+	if !o.Accepted {
+		return // C08's business
+	}
+	sig := eng.Name() + ":" + t.Kind + reprName(t)
+	for _, lvl := range []string{"type-level", "representation"} {
+		n := o.Node
+		if lvl == "representation" {
+			n = repr(o.Node)
+		}
+		var r obs.Result
+		func() {
+			defer func() {
+				if p := recover(); p != nil {
+					rep.Deviate("C01:typed:panic:read:"+lvl+":"+sig, fmt.Sprintf("reading panicked: %v\nengine %s, type %s, value %s", p, eng.Name(), t.Name, clip(tv.Dump(), 500)))
+				}
+			}()
+			r = obs.ReadOut(n, obs.Options{Typed: true})
+		}()
+		rep.Count("wrongkind_probe_readouts", 1)
+		if len(r.Issues) > 0 {
+			rep.Deviate("C01:typed:"+r.Issues[0].Sig+":"+lvl+":"+sig, fmt.Sprintf("%s\nengine %s, type %s (%s view), value %s", r.FirstIssue(), eng.Name(), t.Name, lvl, clip(tv.Dump(), 500)))
+		}
+	}
+}
